@@ -48,6 +48,7 @@ type modeState[V any] struct {
 	nextSlice    []V
 	hintRange    int // 0 none, 1 tail (k, -1), 2 head (1, k), 3 whole
 	hintSlotEnd  bool
+	hintIndex    *int
 	hintFreshKey bool
 	sizeBias     []int
 
@@ -261,6 +262,8 @@ func (s *seqRunner[V]) remember(name, opEnc, human string, f func() string, oc o
 	q := qrec{name: name, opEnc: opEnc, human: human, f: f, obj: -1}
 	if has {
 		q.obj, q.val, q.hasVal = obj, val, true
+	} else if len(s.lastPicks) > 0 && s.lastPicks[0] >= 0 {
+		q.obj = s.lastPicks[0] // the receiver
 	}
 	s.queries = append(s.queries, q)
 	if len(s.queries) > 8 {
@@ -501,6 +504,8 @@ func (s *seqRunner[V]) tryMacro() bool {
 		ok = s.macroLimCall()
 	case "sortslice":
 		ok = s.macroSortSlice()
+	case "bulkvals":
+		ok = s.macroBulkVals()
 	default:
 		if s.assocMacro != nil {
 			ok = s.assocMacro(name)
@@ -544,10 +549,17 @@ func (s *seqRunner[V]) mutateObj(i int, v *V) bool {
 
 // the same call again, after 0..2 mutations of its receiver that tend to keep the remembered answer in place
 func (s *seqRunner[V]) macroRequery() bool {
-	if len(s.queries) == 0 {
+	fresh := false
+	if s.r.chance(1, 2) || len(s.queries) == 0 {
+		fresh = s.freshQuery()
+	}
+	if len(s.queries) == 0 || s.hung {
 		return false
 	}
 	q := s.queries[s.r.intn(len(s.queries))]
+	if fresh || s.r.chance(1, 2) {
+		q = s.queries[len(s.queries)-1]
+	}
 	if q.obj >= 0 {
 		var vp *V
 		if q.hasVal {
@@ -555,7 +567,14 @@ func (s *seqRunner[V]) macroRequery() bool {
 				vp = &v
 			}
 		}
-		for k := s.r.intn(3); k > 0; k-- {
+		k := s.r.intn(3)
+		if fresh && k == 0 {
+			k = 1
+		}
+		for ; k > 0 && !s.hung; k-- {
+			if vp != nil && s.r.chance(2, 3) && s.plantEarlier(q.obj, *vp) {
+				continue
+			}
 			s.mutateObj(q.obj, vp)
 		}
 	} else if s.r.chance(1, 2) {
@@ -573,6 +592,82 @@ func (s *seqRunner[V]) macroRequery() bool {
 	return true
 }
 
+// freshQuery issues a read-only call on a drawn object, so that it can be issued again later
+func (s *seqRunner[V]) freshQuery() bool {
+	r := s.r
+	var cands []int
+	for i, o := range s.pool {
+		switch o.kind {
+		case kArr, kLst, kSet, kStk, kQue, kCat, kMap:
+			cands = append(cands, i)
+		}
+	}
+	if len(cands) == 0 {
+		return false
+	}
+	i := cands[r.intn(len(cands))]
+	var names []string
+	switch s.pool[i].kind {
+	case kLst, kSet:
+		names = []string{"GetIndex", "GetIndex", "GetIndex", "GetIndex", "ContainsValue", "GetValue", "GetIterator", "AsArray"}
+	case kArr:
+		names = []string{"GetValue", "GetIterator", "AsArray"}
+	case kStk, kQue:
+		names = []string{"GetIterator", "GetIterator", "AsArray", "GetSize"}
+	case kCat, kMap:
+		names = []string{"AGet", "AGet", "AGetSize"}
+	}
+	var ok []string
+	for _, n := range names {
+		if hasOp(s.prop, n) && !(creates[n] && s.full()) {
+			ok = append(ok, n)
+		}
+	}
+	if len(ok) == 0 {
+		return false
+	}
+	name := ok[r.intn(len(ok))]
+	if name == "GetIndex" || name == "ContainsValue" {
+		// a value that occurs in the object, preferably not at its first position
+		if arr := s.contents(i); len(arr) > 0 {
+			v := arr[r.intn(len(arr))]
+			if len(arr) > 1 && r.chance(2, 3) {
+				v = arr[1+r.intn(len(arr)-1)]
+			}
+			s.forceVal = &v
+			defer func() { s.forceVal = nil }()
+		}
+	}
+	return s.do(name, i)
+}
+
+// plantEarlier writes v at a position before its first occurrence in list / array i (the first occurrence stays)
+func (s *seqRunner[V]) plantEarlier(i int, v V) bool {
+	if k := s.pool[i].kind; k != kLst && k != kArr {
+		return false
+	}
+	arr := s.contents(i)
+	c := age.Collator[V]().Make()
+	first := -1
+	oc, _ := guard(func() {
+		for p, x := range arr {
+			if c.CompareValues(x, v) {
+				first = p
+				break
+			}
+		}
+	})
+	if oc != ocRet || first < 1 {
+		return false
+	}
+	j := 1 + s.r.intn(first) // ordinal index in 1..first, i.e. before ordinal first+1
+	s.hintIndex = &j
+	s.forceVal = &v
+	ok := s.do("SetValue", i)
+	s.hintIndex, s.forceVal = nil, nil
+	return ok
+}
+
 // endAppend appends one value at the END of object i (a value ranking after every value of i and of j for a Set)
 func (s *seqRunner[V]) endAppend(i, j int) bool {
 	if i < 0 || i >= len(s.pool) {
@@ -581,7 +676,7 @@ func (s *seqRunner[V]) endAppend(i, j int) bool {
 	defer func() { s.forceVal, s.hintSlotEnd, s.hintFreshKey = nil, false, false }()
 	switch s.pool[i].kind {
 	case kLst:
-		if s.r.chance(1, 2) {
+		if s.r.chance(3, 5) || !hasOp(s.prop, "InsertValue") {
 			return s.do("AppendValue", i)
 		}
 		s.hintSlotEnd = true
@@ -638,10 +733,86 @@ func (s *seqRunner[V]) macroAliasProbe() bool {
 		return false
 	}
 	r := s.r
-	name := s.creators[r.intn(len(s.creators))]
+	// the operand first, then a call that builds a new object from an operand of that kind
+	byKind := map[okind][]string{
+		kSlice: {"FromArray"}, kASlice: {"FromArrayA"}, kGoMap: {"FromMap"},
+		kArr: {"GetValues", "FromSeq", "AsArray"},
+		kLst: {"GetValues", "RemoveValues", "Concat", "FromSeq", "AsArray"},
+		kSet: {"SAnd", "SOr", "SSans", "SXor", "GetValues", "FromSeq", "AsArray"},
+		kStk: {"FromSeq", "AsArray"}, kQue: {"FromSeq", "AsArray"},
+		kCat: {"Merge", "Extract", "AKeys", "AGetValues", "ARemoveValues", "FromSeqA", "AAsArray"},
+		kMap: {"AKeys", "AGetValues", "ARemoveValues", "FromSeqA", "AAsArray"},
+	}
+	have := map[string]bool{}
+	for _, c := range s.creators {
+		have[c] = true
+	}
+	options := func(k okind) []weighted {
+		var ws []weighted
+		for _, c := range byKind[k] {
+			if !have[c] {
+				continue
+			}
+			w := 1
+			switch c {
+			case "GetValues", "RemoveValues", "AGetValues", "ARemoveValues", "AKeys", "SAnd", "SOr", "SSans", "SXor", "Concat", "Merge", "Extract":
+				w = 4 // range-returning calls and class functions
+			case "FromSeq", "FromSeqA":
+				w = 2
+			}
+			ws = append(ws, weighted{c, w})
+		}
+		return ws
+	}
+	var cands []int
+	for i, o := range s.pool {
+		if len(options(o.kind)) > 0 {
+			cands = append(cands, i)
+			switch o.kind {
+			case kArr, kLst, kSet, kStk, kQue, kCat, kMap:
+				cands = append(cands, i, i) // collections three times as often as the caller's Go arrays / maps
+			}
+		}
+	}
+	if len(cands) == 0 {
+		return false
+	}
+	op0 := cands[r.intn(len(cands))]
+	// the operand's last insertions are at its end (spare capacity, if the implementation grows by append)
+	if r.chance(2, 3) {
+		for k := 1 + r.intn(3); k > 0 && !s.hung; k-- {
+			s.endAppend(op0, -1)
+		}
+		if s.hung {
+			return true
+		}
+	}
+	name := pickWeighted(r, options(s.pool[op0].kind))
+	if creates[name] || true {
+		if s.full() {
+			return true
+		}
+	}
+	// the other operand of a class function: drawn, or (1/4) an EMPTY collection of the kind, or (1/8) the same object
+	second := -1
+	switch name {
+	case "SAnd", "SOr", "SSans", "SXor", "Concat", "Merge":
+		switch x := r.intn(8); {
+		case x < 2:
+			second = s.emptyOf(s.pool[op0].kind)
+		case x == 2:
+			second = op0
+		}
+		if s.hung || s.full() {
+			return true
+		}
+		if second >= 0 && r.chance(1, 3) && name != "SXor" {
+			op0, second = second, op0 // the degenerate operand first
+		}
+	}
 	s.hintRange = []int{0, 1, 1, 1, 2, 3}[r.intn(6)]
 	n0 := len(s.pool)
-	ok := s.do(name)
+	ok := s.do(name, op0, second)
 	s.hintRange = 0
 	if !ok || len(s.pool) == n0 || s.hung {
 		return ok
@@ -660,37 +831,175 @@ func (s *seqRunner[V]) macroAliasProbe() bool {
 			src = ops[1]
 		}
 	}
-	switch r.intn(4) {
-	case 0: // the product, then the operand
-		s.endAppend(res, src)
-		if src >= 0 && !s.hung {
-			s.endAppend(src, res)
+	// 2..4 follow-ups in a drawn order: an append at the end of the product, of the operand, or a second
+	// product of the same operands followed by an append at its end; the operand is appended to at least once
+	appendable := func(i int) bool {
+		if i < 0 {
+			return false
 		}
-	case 1: // the operand only
-		if src >= 0 {
-			s.endAppend(src, res)
+		switch s.pool[i].kind {
+		case kLst, kSet, kStk, kQue, kCat, kMap:
+			return true
 		}
-	case 2: // the operand, then the product
-		if src >= 0 {
+		return false
+	}
+	didSrc := false
+	for k := 2 + r.intn(3); k > 0 && !s.hung; k-- {
+		switch x := r.intn(5); {
+		case x < 2 && appendable(src):
 			s.endAppend(src, res)
-		}
-		if !s.hung {
+			didSrc = true
+		case x < 4:
 			s.endAppend(res, src)
-		}
-	default: // a second product of the same operands, then both products
-		if len(s.pool) < s.maxPool && !s.hung {
-			n1 := len(s.pool)
-			s.hintRange = 1
-			s.do(name, s.lastPicks...)
-			s.hintRange = 0
-			if !s.hung {
-				s.endAppend(res, src)
-			}
-			if len(s.pool) > n1 && !s.hung {
-				s.endAppend(len(s.pool)-1, src)
+		default:
+			if len(s.pool) < s.maxPool {
+				n1 := len(s.pool)
+				s.hintRange = 1
+				s.do(name, s.lastPicks...)
+				s.hintRange = 0
+				if len(s.pool) > n1 && !s.hung {
+					s.endAppend(len(s.pool)-1, src)
+				}
 			}
 		}
 	}
+	if !didSrc && appendable(src) && !s.hung {
+		s.endAppend(src, res)
+	}
+	return true
+}
+
+// emptyOf returns an empty collection of the kind: one of the pool, or a new one when there is room for it and the product
+func (s *seqRunner[V]) emptyOf(k okind) int {
+	for _, i := range s.ofKind(k) {
+		if s.pool[i].v.(interface{ GetSize() int }).GetSize() == 0 && s.pool[i].coll < limBase {
+			return i
+		}
+	}
+	if len(s.pool)+2 > s.maxPool {
+		return -1
+	}
+	switch k {
+	case kLst, kSet:
+		s.makeEmpty(s.outer.(digester), k)
+		return len(s.pool) - 1
+	case kCat:
+		if s.do("MakeEmptyA") && s.pool[len(s.pool)-1].kind == kCat {
+			return len(s.pool) - 1
+		}
+	}
+	return -1
+}
+
+// shapedSeq builds a sequence of L values related to a collection's values: a drawn permutation of them (repeated when
+// L exceeds their number), then a duplicate, a stranger at the front, in the middle, at the end (each independently;
+// one time in six none of them: the control)
+func shapedSeq[V any](r *rng, present []V, stranger func() V, L int) []V {
+	n := len(present)
+	if L < 1 {
+		L = 1
+	}
+	out := make([]V, L)
+	perm := make([]int, n)
+	for k := range perm {
+		perm[k] = k
+	}
+	for k := n - 1; k > 0; k-- {
+		j := r.intn(k + 1)
+		perm[k], perm[j] = perm[j], perm[k]
+	}
+	for p := range out {
+		if n == 0 {
+			out[p] = stranger()
+		} else {
+			out[p] = present[perm[p%n]]
+		}
+	}
+	if r.chance(1, 6) {
+		return out
+	}
+	for done := false; !done; {
+		if L >= 2 && r.chance(1, 3) {
+			// a duplicate; one time in two it displaces an EARLIER position (the repeat comes before some value's first mention)
+			p1, p2 := r.intn(L), r.intn(L)
+			if p1 != p2 {
+				if r.chance(1, 2) && p1 > p2 {
+					p1, p2 = p2, p1
+				}
+				out[p1] = out[p2]
+				done = true
+			}
+		}
+		if r.chance(1, 3) {
+			out[0] = stranger()
+			done = true
+		}
+		if L >= 3 && r.chance(1, 3) {
+			out[1+r.intn(L-2)] = stranger()
+			done = true
+		}
+		if r.chance(1, 5) {
+			out[L-1] = stranger()
+			done = true
+		}
+	}
+	return out
+}
+
+func shapedLen(r *rng, n int) int {
+	return []int{n, n, n, n, n + 1, n + 1, n - 1, n + 2, 1, 2, r.intn(n + 3)}[r.intn(11)]
+}
+
+// a bulk call on a Set / List whose value sequence has a length related to the size of the collection, made of its
+// members (with repeats) and strangers at chosen positions
+func (s *seqRunner[V]) macroBulkVals() bool {
+	r := s.r
+	if len(s.pool)+2 > s.maxPool {
+		return false
+	}
+	var ops []string
+	for _, n := range []string{"ContainsAll", "ContainsAll", "ContainsAny", "AddValues", "DelValues", "AppendValues", "InsertValues", "SetValues"} {
+		if hasOp(s.prop, n) {
+			ops = append(ops, n)
+		}
+	}
+	if len(ops) == 0 {
+		return false
+	}
+	op := ops[r.intn(len(ops))]
+	var cands []int
+	switch op {
+	case "AddValues", "DelValues":
+		for _, i := range s.ofKind(kSet) {
+			if s.pool[i].coll < limBase {
+				cands = append(cands, i)
+			}
+		}
+	case "AppendValues", "InsertValues":
+		cands = s.ofKind(kLst)
+	case "SetValues":
+		cands = s.ofKind(kLst, kArr)
+	default:
+		cands = s.ofKind(kLst, kSet)
+	}
+	if len(cands) == 0 {
+		return false
+	}
+	i := cands[r.intn(len(cands))]
+	present := s.contents(i)
+	vals := shapedSeq(r, present, func() V { return s.genv(r) }, shapedLen(r, len(present)))
+	s.nextSlice = vals
+	if !s.do("NewSlice") {
+		s.nextSlice = nil
+		return false
+	}
+	sl := len(s.pool) - 1
+	kind := []okind{kLst, kLst, kArr, kQue}[r.intn(4)]
+	s.fromArray(s.outer.(digester), kind, sl)
+	if s.hung {
+		return true
+	}
+	s.do(op, i, len(s.pool)-1)
 	return true
 }
 
@@ -875,16 +1184,16 @@ func (s *seqRunner[V]) macroSortSlice() bool {
 // ---------- per-case configuration ----------
 
 var macroTable = map[string][]weighted{
-	"C01": {{"requery", 5}, {"aliasprobe", 3}, {"ascbuild", 1}, {"nilcall", 1}},
-	"C02": {{"requery", 3}, {"aliasprobe", 3}, {"ascbuild", 2}, {"nilcall", 1}, {"limcall", 2}},
-	"C03": {{"requery", 2}, {"bulkkeys", 5}, {"aliasprobe", 2}, {"assocwrite", 2}},
+	"C01": {{"requery", 8}, {"aliasprobe", 3}, {"ascbuild", 1}, {"nilcall", 1}, {"bulkvals", 2}},
+	"C02": {{"requery", 3}, {"aliasprobe", 3}, {"ascbuild", 2}, {"nilcall", 1}, {"limcall", 2}, {"bulkvals", 4}},
+	"C03": {{"requery", 2}, {"bulkkeys", 6}, {"aliasprobe", 2}, {"assocwrite", 2}},
 	"C09": {{"sortslice", 7}, {"requery", 1}},
 	"C13": {{"requery", 4}, {"aliasprobe", 2}},
-	"C14": {{"requery", 2}, {"bulkkeys", 5}, {"aliasprobe", 2}, {"assocwrite", 2}},
-	"C15": {{"nilcall", 2}, {"limcall", 8}, {"aliasprobe", 5}, {"ascbuild", 3}, {"requery", 1}},
+	"C14": {{"requery", 2}, {"bulkkeys", 7}, {"aliasprobe", 2}, {"assocwrite", 2}},
+	"C15": {{"nilcall", 2}, {"limcall", 8}, {"aliasprobe", 8}, {"ascbuild", 3}, {"requery", 1}},
 	"C16": {{"nilcall", 4}, {"aliasprobe", 3}, {"bulkkeys", 2}, {"assocwrite", 1}, {"requery", 1}},
 	"C17": {{"requery", 3}, {"assocwrite", 2}, {"aliasprobe", 1}},
-	"C18": {{"aliasprobe", 6}, {"assocwrite", 3}, {"ascbuild", 2}, {"nilcall", 1}, {"bulkkeys", 1}, {"requery", 1}},
+	"C18": {{"aliasprobe", 9}, {"assocwrite", 5}, {"ascbuild", 2}, {"nilcall", 1}, {"bulkkeys", 1}, {"requery", 1}, {"bulkvals", 2}},
 }
 
 func (s *seqRunner[V]) configure(prop string) {
@@ -906,12 +1215,12 @@ func (s *seqRunner[V]) configure(prop string) {
 	s.mode(obsNames[s.obsPolicy])
 	s.macros = macroTable[prop]
 	switch y := r.intn(10); {
-	case y < 3:
+	case y < 2:
 		s.macroP = 0
-	case y < 7:
-		s.macroP = 3
+	case y < 6:
+		s.macroP = 4
 	default:
-		s.macroP = 6
+		s.macroP = 8
 	}
 	if s.macroP > 0 {
 		s.maxPool = 12
@@ -1039,7 +1348,7 @@ func (a *assocRunner[V]) macroBulkKeys() bool {
 		return false
 	}
 	var ops []string
-	for _, n := range []string{"AGetValues", "ARemoveValues", "Extract"} {
+	for _, n := range []string{"AGetValues", "AGetValues", "ARemoveValues", "ARemoveValues", "Extract"} {
 		if hasOp(s.prop, n) {
 			ops = append(ops, n)
 		}
@@ -1053,6 +1362,12 @@ func (a *assocRunner[V]) macroBulkKeys() bool {
 		cands = s.ofKind(kCat)
 	} else {
 		cands = s.ofKind(kCat, kMap)
+	}
+	// the property's own kind three times in four
+	if pk, ok := map[string]okind{"C14": kMap, "C03": kCat}[s.prop]; ok && op != "Extract" && r.chance(3, 4) {
+		if own := s.ofKind(pk); len(own) > 0 {
+			cands = own
+		}
 	}
 	if len(cands) == 0 {
 		return false
@@ -1069,51 +1384,7 @@ func (a *assocRunner[V]) macroBulkKeys() bool {
 		}
 		return a.genk(r)
 	}
-	L := []int{n, n, n, n, n + 1, n - 1, n + 2, 1, 2, r.intn(n + 3)}[r.intn(10)]
-	if L < 1 {
-		L = 1
-	}
-	keys := make([]V, L)
-	// start from the keys of the collection in a drawn order (repeating when L > n)
-	perm := make([]int, n)
-	for k := range perm {
-		perm[k] = k
-	}
-	for k := n - 1; k > 0; k-- {
-		j := r.intn(k + 1)
-		perm[k], perm[j] = perm[j], perm[k]
-	}
-	for p := range keys {
-		if n == 0 {
-			keys[p] = absent()
-		} else {
-			keys[p] = present[perm[p%n]]
-		}
-	}
-	if !r.chance(1, 6) { // 1/6: exactly the key set (the control)
-		done := false
-		for !done {
-			if L >= 2 && r.chance(1, 3) { // a duplicate
-				p1, p2 := r.intn(L), r.intn(L)
-				if p1 != p2 {
-					keys[p1] = keys[p2]
-					done = true
-				}
-			}
-			if r.chance(1, 3) { // an absent key at the front
-				keys[0] = absent()
-				done = true
-			}
-			if L >= 3 && r.chance(1, 3) { // in the middle
-				keys[1+r.intn(L-2)] = absent()
-				done = true
-			}
-			if r.chance(1, 5) { // at the end
-				keys[L-1] = absent()
-				done = true
-			}
-		}
-	}
+	keys := shapedSeq(r, present, absent, shapedLen(r, n))
 	s.nextSlice = keys
 	if !s.do("NewSlice") {
 		s.nextSlice = nil
@@ -1146,8 +1417,20 @@ func (a *assocRunner[V]) macroAssocWrite() bool {
 			cands = append(cands, i)
 		}
 	}
-	if len(cands) == 0 {
-		return false
+	if len(cands) == 0 || (r.chance(1, 4) && len(s.pool)+4 <= s.maxPool) {
+		// build one from a Go array of associations
+		if len(s.pool)+4 > s.maxPool || !s.do("NewASlice") {
+			return false
+		}
+		sl := len(s.pool) - 1
+		if len(s.pool[sl].v.([]col.AssociationLike[V, V])) == 0 || !s.do("FromArrayA", sl) || s.hung {
+			return true
+		}
+		if k := s.pool[len(s.pool)-1].kind; (k == kCat || k == kMap) && a.assocSeq(len(s.pool)-1).GetSize() > 0 {
+			cands = []int{len(s.pool) - 1}
+		} else {
+			return true
+		}
 	}
 	i := cands[r.intn(len(cands))]
 	if !s.do("AAsArray", i) || s.hung {
